@@ -74,6 +74,7 @@ fn genesis(coin: &str) -> Option<BlockDesc> {
                 script: Bytes(p2pk(&key)),
             }],
             locktime: 0,
+            cs_width: 0,
         }],
     })
 }
